@@ -66,7 +66,8 @@ func VerifH19fAuthorization() {
 	}
 	w := &zz19Writer{}
 	status, err := a.ServeHTTP(w, r)
-	right := strings.EqualFold(prefix, "Basic ") && cred == "dTpw" // base64("u:p")
+	hv := prefix + cred
+	right := len(hv) == 10 && strings.EqualFold(hv[:6], "Basic ") && hv[6:] == "dTpw" // base64("u:p")
 	verifrt.Assert((next.ran == 1) == right, "opens-exactly-for-the-configured-credentials")
 	if next.ran == 0 {
 		verifrt.Assert(status == 401 && err != nil && len(w.body) == 0 && w.Header().Get("WWW-Authenticate") != "", "refusal-is-401-without-body")
